@@ -69,6 +69,8 @@ ParForOutcome(in) ==
   ELSE
   LET w == IF in.wait THEN 1 ELSE 0
       numToLaunch == Min(maxThreads - w, in.N)
+      \* parallel_for.h:642 computes this also when the adaptive path below discards it
+      ci0 == CalcChunkSize(psize, chunk, numToLaunch, in.wait, minItems, g, 16)
   IN
   IF isAuto /\ in.wait
   THEN \* parallel_for_adaptiveWaitDispatch
@@ -76,10 +78,10 @@ ParForOutcome(in) ==
            ci == CalcChunkSize(psize, 0, numToLaunch, TRUE, minItems, g, 64)
            init == InitStripes(ty, wty, in.sg, in.start, te, nw, Cast(ci.cs, ty), g)
            sb == StripeBodies(init, ty, wty, ExtraClaims(nw), psize + 2)
-       IN  Outcome("stripe", ci.err \/ init.err, sb.bodies \o tail, sb.late, sb.runaway, nw, g)
+       IN  Outcome("stripe", ci0.err \/ ci.err \/ init.err, sb.bodies \o tail, sb.late, sb.runaway, nw, g)
   ELSE \* parallel_for_dynamicImpl (wait) / parallel_for_dynamicNoWaitDispatch
        \* every index group hands out its chunks startChunk .. startChunk + count - 1 once each
-       LET ci == CalcChunkSize(psize, chunk, numToLaunch, in.wait, minItems, g, 16)
+       LET ci == ci0
            groups == DynGroups(numToLaunch + w, in.l3, in.gspan)
            order == ConcatAll([k \in 1 .. groups |->
                       LET gr == DynGroupRange(ci.n, groups, k - 1)
